@@ -140,3 +140,21 @@ Theorem bytes_new_is_cur_new : forall B buf,
   i_new (B, length buf) (mkpmem B buf) (mkpst 0 0 0) = PDone tt (pst_of B (cur_new buf)) /\ repr buf (cur_new buf).
 Proof. exact tie_iter_new. Qed.
 Print Assumptions bytes_new_is_cur_new.
+
+(* ---- zero-copy at ADDRESS level: the address-level program of the request entry point (Proofs/LiftTop.v:
+   every slice is obtained by `from_raw_parts(p, n)` with [p, p+n) checked against the buffer, and denotes the
+   bytes it reads there) hands out, on a fresh Request, exactly the slices of the reference parser -- which lie
+   inside buf[..n], in order, without overlap, and contain the buffer's own bytes (`chain`, `chain_zero_copy`)
+   -- at every base address B ---- *)
+From HV.Proofs Require Import Lift LiftLib LiftTop.
+Theorem address_level_request_slices : forall B W, 0 < W -> forall be cf buf arr, bytes_ok buf ->
+  let '(st, rq, arr') := addr_request_core B W be cf buf (request_new []) arr in
+  let r := ref_request cf (length arr) buf in
+  st = rq_status r /\ q_method rq = rs_method (rq_start r) /\ q_path rq = rs_path (rq_start r) /\
+  arr' = slots_of (rq_headers r) arr /\
+  chain buf 0 (req_slices r) (lim buf st).
+Proof.
+  intros B W HW be cf buf arr Hb. rewrite addr_request_core_model by assumption.
+  apply model_request_slices; [apply BackendsOk.env_of_ok; exact HW|exact Hb].
+Qed.
+Print Assumptions address_level_request_slices.
